@@ -122,7 +122,7 @@ type mbox struct {
 	t2master time.Duration // the equipment's T2
 	// findings of the tracker
 	maxAttempts   [2]int
-	failAttempts  [2]int // attempts at the moment the side's socket closed while it was sending (-1: n/a)
+	failAttempts  [][2]int // (side, attempts) whenever a side closed its socket first while it was sending
 	masterYielded string
 	parseErrs     []string
 	blockTx       map[string]int // transmissions per (gen, dir, header)
@@ -130,7 +130,7 @@ type mbox struct {
 
 func newMbox(w *e2.World, plan []fault, barrier bool, t1, t2 time.Duration) *mbox {
 	return &mbox{w: w, plan: plan, barrier: barrier, barrierCh: make(chan struct{}), t1: t1, t2: t2,
-		failAttempts: [2]int{-1, -1}, blockTx: map[string]int{}}
+		blockTx: map[string]int{}}
 }
 
 // attach joins a new pair of sockets (a new link generation) and starts the relays.
@@ -186,7 +186,7 @@ func (m *mbox) relay(d int, src, dst *sim.Conn, gen int) {
 			m.mu.Lock()
 			if m.gen == gen {
 				if m.live && m.sending[d] {
-					m.failAttempts[d] = m.attempts[d]
+					m.failAttempts = append(m.failAttempts, [2]int{d, m.attempts[d]})
 				}
 				m.live = false
 			}
@@ -379,10 +379,10 @@ func (m *mbox) forward(d int, u unit, data []byte, dst *sim.Conn, gen int) {
 	}
 }
 
-func (m *mbox) snapshot() (trace []unit, maxAtt, failAtt [2]int, masterYielded string, parseErrs []string) {
+func (m *mbox) snapshot() (trace []unit, maxAtt [2]int, failAtt [][2]int, masterYielded string, parseErrs []string) {
 	m.mu.Lock()
 	defer m.mu.Unlock()
-	return append([]unit(nil), m.trace...), m.maxAttempts, m.failAttempts, m.masterYielded, append([]string(nil), m.parseErrs...)
+	return append([]unit(nil), m.trace...), m.maxAttempts, append([][2]int(nil), m.failAttempts...), m.masterYielded, append([]string(nil), m.parseErrs...)
 }
 
 // checkChunks cross-checks the relay's protocol-driven unit boundaries against the
